@@ -368,7 +368,7 @@ fn orderings(g: &Group, tier: &str) -> Vec<(List, List)> {
 // ------------------------------------------------------------------------------------------- edits
 
 /// (offset of the length field of the algorithms part, entries) of a handshake datagram: 0xff, salt(4), key hash(4), parts
-fn algo_part(d: &[u8]) -> Option<(usize, Vec<[u8; 5]>)> {
+pub fn algo_part(d: &[u8]) -> Option<(usize, Vec<[u8; 5]>)> {
     let mut p = 9;
     while p < d.len() {
         let t = d[p];
@@ -390,7 +390,7 @@ fn algo_part(d: &[u8]) -> Option<(usize, Vec<[u8; 5]>)> {
     None
 }
 
-fn rebuild(d: &[u8], len_off: usize, old_n: usize, es: &[[u8; 5]]) -> Vec<u8> {
+pub fn rebuild(d: &[u8], len_off: usize, old_n: usize, es: &[[u8; 5]]) -> Vec<u8> {
     let mut out = d[..len_off].to_vec();
     let len = es.len() * 5;
     out.push((len >> 8) as u8);
@@ -402,7 +402,7 @@ fn rebuild(d: &[u8], len_off: usize, old_n: usize, es: &[[u8; 5]]) -> Vec<u8> {
     out
 }
 
-fn entry(c: u8, speed: f32) -> [u8; 5] {
+pub fn entry(c: u8, speed: f32) -> [u8; 5] {
     let b = speed.to_be_bytes();
     [c, b[0], b[1], b[2], b[3]]
 }
@@ -530,6 +530,98 @@ fn edit_family(ctx: [&Crypto; 2], g: u64, a: &Cfg, b: &Cfg, t: &mut Vec<Value>, 
     }
 }
 
+/// A peer of a later version: its genuine ping additionally advertises ciphers this version does not know (ids 9 and
+/// 200, in front and behind), signed with its (trusted) key.  Unknown entries are skipped: the outcome is the one of the
+/// known entries, an unknown id never stands for "unencrypted", and nothing unsealed leaves the responder unless both
+/// ends enabled plain.
+fn future_family(ctx: [&Crypto; 2], g: u64, a: &Cfg, b: &Cfg, key: &KeyCfg, t: &mut Vec<Value>) {
+    use ring::signature::Ed25519KeyPair;
+    let seed = match key {
+        KeyCfg::Pair(pr, _) => {
+            let mut raw = crate::util::from_base62(pr).unwrap_or_default();
+            while raw.len() < 32 {
+                raw.insert(0, 0);
+            }
+            raw
+        }
+        _ => return,
+    };
+    let kp = match Ed25519KeyPair::from_seed_unchecked(&seed) {
+        Ok(k) => k,
+        Err(_) => return,
+    };
+    for (variant, unknown) in [("front", vec![(0usize, 9u8)]), ("back", vec![(usize::MAX, 200u8)]), ("both", vec![(0, 9), (usize::MAX, 77)])] {
+        let mut ends = [ctx[0].peer_instance(node_info(1)), ctx[1].peer_instance(node_info(2))];
+        let mut m = MsgBuffer::new(100);
+        if ends[0].initialize(&mut m).is_err() {
+            continue;
+        }
+        let ping = m.message().to_vec();
+        let (off, mut es) = match algo_part(&ping) {
+            Some(x) => x,
+            None => continue,
+        };
+        let n = es.len();
+        for (pos, id) in &unknown {
+            let e = entry(*id, 777.0);
+            if *pos == 0 {
+                es.insert(0, e)
+            } else {
+                es.push(e)
+            }
+        }
+        let mut d = rebuild(&ping, off, n, &es);
+        // sign again: everything between the marker byte and the signature length byte
+        let l = d.len();
+        if l < 70 || d[l - 65] != 64 {
+            continue;
+        }
+        let sig = kp.sign(&d[1..l - 65]);
+        d[l - 64..].copy_from_slice(sig.as_ref());
+        let mut wire: Vec<Vec<u8>> = vec![];
+        let mut done = [false; 2];
+        let mut res = "ok";
+        let mut queue: std::collections::VecDeque<(usize, Vec<u8>)> = Default::default();
+        queue.push_back((1, d));
+        let mut steps = 0;
+        while let Some((to, bytes)) = queue.pop_front() {
+            steps += 1;
+            if steps > 12 {
+                break;
+            }
+            if steps > 1 {
+                wire.push(bytes.clone());
+            }
+            match feed_guarded(&mut ends[to], &bytes) {
+                Fed::Panic(_) => {
+                    res = "panic";
+                    break;
+                }
+                Fed::Err(_, _) => {}
+                Fed::Reply(o) => {
+                    if !o.is_empty() {
+                        queue.push_back((1 - to, o))
+                    }
+                }
+                Fed::Done(o) => {
+                    done[to] = true;
+                    if !o.is_empty() {
+                        queue.push_back((1 - to, o))
+                    }
+                }
+                Fed::Other => {}
+            }
+        }
+        let sel = |i: usize, e: &PeerCrypto<NodeInfo>| if done[i] { id_of(e.algorithm_name()) } else { 99 };
+        let (x, y) = (sel(0, &ends[0]), sel(1, &ends[1]));
+        // the responder's node information (16 bytes of node id 2...) must not travel unsealed
+        let needle = [2u8; 12];
+        let clear = wire.iter().any(|w| w.windows(12).any(|q| q == needle));
+        t.push(json!({"op":"future","g":g,"grid":a.grid,"variant":variant,"a":jl(&a.list),"ap":a.plain,"b":jl(&b.list),"bp":b.plain,
+                      "x":x,"y":y,"res":res,"clear":clear,"datagrams":wire.len()}));
+    }
+}
+
 // ------------------------------------------------------------------------------------------- driver
 
 fn nego_event(gid: u64, ca: &Cfg, cb: &Cfg, init: usize, r: &HsResult) -> Value {
@@ -612,7 +704,7 @@ fn run_all(tier: &str, out_path: &str) -> Value {
         let tier = tier.to_string();
         let piece = format!("{}.part{}", out_path, ti);
         handles.push(std::thread::Builder::new().stack_size(16 << 20).spawn(move || {
-            let mut ctxs = Ctxs::new(key);
+            let mut ctxs = Ctxs::new(key.clone());
             let mut t = Trace::create(&piece);
             let mut st = EditStats { edits: 0, controls_failed: 0 };
             let (mut hs, mut completed, mut failed) = (0u64, 0u64, 0u64);
@@ -646,6 +738,14 @@ fn run_all(tier: &str, out_path: &str) -> Value {
                         let mut evs = vec![];
                         let ctx = ctxs.pair(&g.a, &g.b);
                         edit_family(ctx, gid, &g.a, &g.b, &mut evs, &mut st);
+                        for e in evs {
+                            t.ev(e);
+                        }
+                    }
+                    if with_edits[gi] {
+                        let mut evs = vec![];
+                        let ctx = ctxs.pair(&g.a, &g.b);
+                        future_family(ctx, gid, &g.a, &g.b, &key, &mut evs);
                         for e in evs {
                             t.ev(e);
                         }
